@@ -54,4 +54,15 @@ pub(crate) mod verif_rig_state {
             self.state.pos.clone()
         }
     }
+
+    /// Contract stand-in for `estimator_weight` (0.1^(age/15)): w(0) = 1, otherwise an arbitrary value in [0, 1 - 1e-10].
+    /// Used by every harness that is not about the estimator itself, to keep CBMC away from powf.
+    pub(crate) fn weight_any(age: f64) -> f64 {
+        if age == 0.0 {
+            return 1.0;
+        }
+        let w: f64 = kani::any();
+        kani::assume(w >= 0.0 && w <= 1.0 - 1e-10);
+        w
+    }
 }
